@@ -1,6 +1,7 @@
 package worker
 
 import (
+	"strconv"
 	"fmt"
 	"strings"
 
@@ -92,10 +93,24 @@ func opIterate(req *sb.Req) *sb.Resp {
 		resp.Items[i] = guard(func() sb.Item {
 			c := Build(req.Vals[i])
 			it := sb.Item{Status: "ok"}
+			grow, _ := strconv.Atoi(req.Extra["grow"])
 			n, err := stick.Iterate(c, func(k, v stick.Value, l stick.Loop) (bool, error) {
 				it.L = append(it.L, fmt.Sprintf("%s=%s|%d,%d,%d,%d,%v,%v,%d", Repr(k), Repr(v),
 					l.Index, l.Index0, l.Revindex, l.Revindex0, l.First, l.Last, l.Length))
-				return false, nil
+				if grow > 0 && len(it.L) == grow {
+					// the loop body adds entries to the map it is iterating
+					// (as the merge filter does to its operand)
+					target := c
+					if p, ok := target.(*map[string]stick.Value); ok && p != nil {
+						target = *p
+					}
+					if mp, ok := target.(map[string]stick.Value); ok {
+						for j := 0; j < 12; j++ {
+							mp[fmt.Sprintf("zz-added-%d", j)] = j
+						}
+					}
+				}
+				return len(it.L) > 200, nil
 			})
 			if err != nil {
 				it.Status = "error"
